@@ -69,6 +69,7 @@ struct State {
     choked: bool,
     interested: bool,
     keep_alive: u32,
+    handshake_done: bool,
 }
 
 struct Stats {
@@ -177,6 +178,7 @@ impl PeerHandler {
                 choked: true,
                 interested: false,
                 keep_alive: 0,
+                handshake_done: false,
             },
             stats: Stats::new(),
             msg_buff: vec![],
@@ -347,6 +349,14 @@ impl PeerHandler {
             Some(frame) => {
                 #[cfg(rdest_verif)]
                 self.verif_begin(Self::verif_frame(&frame));
+                // Before peer handshake is validated, nothing else is handled
+                if !self.peer_state.handshake_done {
+                    match frame {
+                        Frame::Handshake(_) | Frame::KeepAlive(_) => (),
+                        _ => return Err(Error::HandshakeMissing.into()),
+                    }
+                }
+
                 self.peer_state.keep_alive = match frame {
                     Frame::KeepAlive(_) => self.peer_state.keep_alive,
                     _ => 0,
@@ -383,6 +393,7 @@ impl PeerHandler {
         handshake: &Handshake,
     ) -> Result<bool, Box<dyn std::error::Error>> {
         handshake.validate(&self.info_hash, &self.peer_id)?;
+        self.peer_state.handshake_done = true;
 
         let peer_init_handshake = self.peer_id.is_none();
         self.peer_id = Some(*handshake.peer_id());
